@@ -162,8 +162,59 @@ theorem alphabet_decodes (d : HpDecl) (ht : d.type ≠ .other) :
   · exact ⟨_, rfl⟩
   · exact absurd ht' ht
 
+/-- Precedence, per route and for any number of routes: explicit values win over dna(), dna() over
+    the declared defaults, and each route's values come from its own strategy only. -/
+theorem precedence (explicit : Hp) (routes : List StratDecl) (hps : List Hp)
+    (h : prepareRoutes explicit routes = .ok hps) :
+    hps.length = routes.length ∧
+    ∀ i (h1 : i < routes.length) (h2 : i < hps.length),
+      (∀ v, explicit = some v → hps[i] = some v) ∧
+      (explicit = none → routes[i].dna ≠ [] → ∃ v, dnaToHp routes[i].decls routes[i].dna = .ok v ∧ hps[i] = some v) ∧
+      (explicit = none → routes[i].dna = [] → routes[i].decls ≠ [] → hps[i] = some routes[i].defaults) ∧
+      (explicit = none → routes[i].dna = [] → routes[i].decls = [] → hps[i] = none) := by
+  induction routes generalizing hps with
+  | nil => simp [prepareRoutes] at h; subst h; simp
+  | cons s rest ih =>
+    simp only [prepareRoutes] at h
+    cases h1 : prepareRoute explicit s with
+    | error e => simp [h1] at h
+    | ok hp =>
+      simp only [h1] at h
+      cases h2 : prepareRoutes explicit rest with
+      | error e => simp [h2] at h
+      | ok hs =>
+        simp only [h2] at h
+        injection h with h; subst h
+        obtain ⟨l, p⟩ := ih hs h2
+        refine ⟨by simp [l], ?_⟩
+        intro i hi1 hi2
+        cases i with
+        | succ j => simpa using p j (by simpa using hi1) (by simpa using hi2)
+        | zero =>
+          simp only [List.getElem_cons_zero]
+          unfold prepareRoute at h1
+          refine ⟨?_, ?_, ?_, ?_⟩
+          · intro v hv; subst hv; simp at h1; exact h1.symm
+          · intro he hd; subst he
+            have : s.dna.length > 0 := List.length_pos_iff.mpr hd
+            simp only [this, true_and, if_true] at h1
+            cases hdec : dnaToHp s.decls s.dna with
+            | error e => simp [hdec] at h1
+            | ok v => simp [hdec] at h1; exact ⟨v, rfl, h1.symm⟩
+          · intro he hd hne; subst he
+            have : ¬ s.dna.length > 0 := by simp [hd]
+            have h3 : s.decls.length > 0 := List.length_pos_iff.mpr hne
+            simp [this, h3] at h1; exact h1.symm
+          · intro he hd hne; subst he
+            have : ¬ s.dna.length > 0 := by simp [hd]
+            simp [this, hne] at h1; exact h1.symm
+
 /-- non-vacuity: a concrete declaration and gene -/
 example : decodeGene { type := .int, min := 0, max := 30 } 79 = .ok 15 := by decide +kernel
+example : prepareRoutes none
+    [{ decls := [{ type := .int, min := 0, max := 100 }], defaults := [7], dna := [119] },
+     { decls := [{ type := .int, min := 0, max := 100 }], defaults := [7], dna := [] }]
+    = .ok [some [100], some [7]] := by decide +kernel
 example : dnaToHp [{ type := .int, min := 0, max := 30 }, { type := .float, min := -1, max := 1 }] [79, 119]
     = .ok [15, 1] := by decide +kernel
 
